@@ -37,7 +37,7 @@ CHECKS['C05'] = dict(
 CHECKS['C06'] = dict(
     technique='Lean 4 theorems: Python slice-assignment semantics, leaf operations and descent steps as List.set / dict assignment, frame lemmas, and the closed form of the bit-level layout (walk_reach: a written index path of any depth decodes to that path; leaf_encoded; nested_update_decodes; the encoder in the model: bitsOf_packBits, nested_encode_apply: read_and_apply (encodeNested ...) = the list/dict operation at the end of the path, nested_packet_step through the packet layout and stepNet) + the harness encoder compared byte for byte with the model encoder + differential play of generated nested-operation sequences against plain list/dict operations',
     text='C06 theorems give the semantics of every step of a nested update in the model as ordinary list/dict operations (slice with all clamping cases, element set, value-less set, dict field set, descent = List.set/dictSet of the updated child, stop conditions) and that nothing else changes. The model is tied to NestedProperty.read_and_apply by generated op sequences (depth 1..5, all slice pairs) compared after every packet, with the generator applying the same operations to plain Python lists/dicts as oracle.',
-    note='the encoder (packBits / encodeNested) is part of the model and its bytes are compared with the harness's own encoder on every generated operation inside its domain; a stop bit of 1 on an empty container is outside the encoder (covered by walk_reach and the tie); subscriber notification is proved in C07.dispatch_nested; the payload-length fix (32-bit) is part of the modelled code.',
+    note='the encoder (packBits / encodeNested) is part of the model and its bytes are compared with the encoder of the harness on every generated operation inside its domain; a stop bit of 1 on an empty container is outside the encoder (covered by walk_reach and the tie); subscriber notification is proved in C07.dispatch_nested; the payload-length fix (32-bit) is part of the modelled code.',
     design='§5 C06')
 CHECKS['C08'] = dict(
     technique='Lean 4 theorems position_spec / player_position_{set,copy,unknown_ignored,zero} / pose_frame / entity_history (updates and positions over whole histories) + differential play of generated position histories + recordings',
